@@ -2,4 +2,8 @@
 
 package bt
 
+import "sync"
+
 func verifTrace(method, op, on string) {}
+
+func verifAccess(method, op, on string, mu *sync.RWMutex) {}
